@@ -229,6 +229,7 @@ def run(M, c):
                             _judge_getters(M, "datetime-zone:midnight-gap-month", x, exp, d)
                             n += 1
                 M.cls("mgm", zn, f[0], f[1])
+                M.progress()
         M.sample({"k": k, "n": n})
         return
     if k == "years":
